@@ -159,6 +159,14 @@ def m_index(I, fr, callee, m, args):
         return Ref(s.base.cell, s.base.path + (('i', I.binop('Add', s.start, idx)),))
     a, b = range_bounds(I, s, idx)
     check_bounds_or_panic(I, band(ule(a, b), ule(b, s.len)), 'slice index out of range')
+    if re.match(r'^<(?:str|String) as ', callee):
+        # str slicing panics unless both ends fall on UTF-8 character boundaries
+        items = I.seq_items(s)[0]
+        for e in (a, b):
+            inside = band(ult(usize(0), e), ult(e, s.len))
+            if I.ctx.branch(inside):
+                byte = I.select(items, I.binop('Add', s.start, e))
+                check_bounds_or_panic(I, sc_from((byte.z() & 0xC0) != 0x80, 'bool'), 'byte index is not a char boundary')
     return subslice(I, s, a, b)
 
 
